@@ -319,8 +319,14 @@ CLAIMS["C15"] = dict(
 
 # rules added after the claim texts were written (DESIGN 9.19): appended to the claim text of the property
 ADDENDA = {
-    "C01": " Also: numbers print as one numeric literal of the library's lexer that reads back as the value (C07's table, incl. 1e+16 / 1e-07).",
-    "C03": " Also: an operator token spelled with several words is one token under every ignored white space between the words (ordered-lexer simulation).",
+    "C19": " Also: The suggestion filter is an interpreted table with call histories.",
+    "C18": " Also: Classes compared through vars(self) assign the same attributes on every constructor path.",
+    "C04": " Also: Lexer tokenize overrides hand the text on unchanged (all-categories Unicode probe).",
+    "C08": " Also: A select in FROM is planned clause for clause as written (672 inner x outer clause combinations).",
+    "C06": " Also: Qualified names are columns whatever their last part spells; f(x FROM y) passes x as an expression; + is kept by the generic operator (SQLAlchemy's __add__ concatenates over string-typed operands).",
+    "C02": " Also: sly's defaulted states (computed by its own code on the reconstructed tables) never default-reduce an empty production where the error callback can return (driver termination in panic mode).",
+    "C01": " Also: numbers print as one numeric literal of the library's lexer that reads back as the value (C07's table, incl. 1e+16 / 1e-07). Names the grammar keeps as raw id token text are printed as that text (carriers found by interpreting the actions).",
+    "C03": " Also: an operator token spelled with several words is one token under every ignored white space between the words (ordered-lexer simulation). The operator actions leave their operands (parentheses marks included) untouched.",
     "C04": " Also: parse_sql (interpreted with recording stand-ins) hands the lexer the caller's text, trimmed only at its ends; a part of a name is never the "
            "re-printed value of a numeric nonterminal.",
     "C06": " Also: no branch of an isinstance dispatch of the renderer is shadowed by an earlier branch for an ancestor class (real hierarchy); EXISTS / NOT EXISTS / "
@@ -329,11 +335,11 @@ ADDENDA = {
     "C08": " Also: plan_join_tables interpreted end to end for every join kind x 2 / 3 tables x placement of the conjuncts: under an outer join the re-applied WHERE keeps "
            "every conjunct.",
     "C09": " Also: no mutable default argument in the planner is stored, returned, handed on or changed (one step list shared by every plan).",
-    "C10": " Also: resolve_table followed by process_table (both interpreted) names <integration>.<rest of the name as written> in the fetch.",
+    "C10": " Also: resolve_table followed by process_table (both interpreted) names <integration>.<rest of the name as written> in the fetch. Both single-integration gates classify the whole query (decision table shared with C11).",
     "C12": " Also: a second execute_steps on the same prepared statement is refused or binds the new values to a statement that still has its placeholders.",
     "C13": " Also: the components of unpacked elements of one field are visited in one loop, not in separate passes.",
-    "C16": " Also: every embedding production interpreted with the real node constructors: the node holds exactly the text tokens_to_string rebuilt.",
-    "C20": " Also: no mutable default argument (list / dict / set display) is stored, returned, handed on or changed by its function.",
+    "C16": " Also: every embedding production interpreted with the real node constructors: the node holds exactly the text tokens_to_string rebuilt. The text the lexer tokenizes is the caller's (parse_sql and every tokenize override interpreted on an all-categories Unicode probe).",
+    "C20": " Also: no mutable default argument (list / dict / set display) is stored, returned, handed on or changed by its function. Renderer methods undo what they write into self in a finally (or reset / memoise).",
 }
 
 NA_PENDING = "check under construction in this session; not claimed until its rule module is committed"
